@@ -107,10 +107,16 @@ def run_queries(setup, queries, batch=100, explain=True, jobs=None, watchdog=120
                 kq = k + per - 1
                 if kq < len(res):
                     out[qi] = {"res": res[kq], "plan": plan_shape(plan)}
-                elif len(idx) == 1:
-                    out[qi] = {"res": {"missing": True}, "plan": plan_shape(plan)}
                 else:
-                    retry.append([qi])
+                    # not executed: an earlier query of this batch panicked (a panic ends its case); the rest of
+                    # the batch is re-run as one new batch
+                    if pos == 0:
+                        out[qi] = {"res": {"missing": True}, "plan": plan_shape(plan)}
+                        if len(idx) > 1:
+                            retry.append(idx[1:])
+                    else:
+                        retry.append(idx[pos:])
+                    break
         pending = retry
         rnd += 1
     return out
